@@ -274,6 +274,48 @@ def task_carry(ctx, repo, m):
     obs.append(Obligation('carry.megagroup_has_every_group_option', [],
                           z3.BoolVal(bool(ok)), W,
                           extra=dict(not_carried=missing)))
+    # a group of sub-groups: one MegaGroup per sub-group, in order, each
+    # left as its own constructor made it (its own real flag, ranges,
+    # iteration settings) whatever the parent's options are
+    fmd = ma.methods('MegaGroup')['_make_data']
+    for parent_real in (False, True):
+        subs = [SymObject(None, dict(real=r_, name='sub%d' % i_), 'g%d' % i_)
+                for i_, r_ in enumerate((True, False, True))]
+        built = []
+
+        def mk(e, s_, a, k, n):
+            o_ = SymObject(None, dict(real=a[0].attrs['real'],
+                                      name=a[0].attrs['name'],
+                                      start_idx=('own', a[0].name),
+                                      group_cls=a[1]), 'mg_' + a[0].name)
+            built.append((a[0], o_))
+            return o_
+        pg = SymObject(None, dict(equations=list(subs), has_subgroups=True,
+                                  real=parent_real), 'group')
+        me3 = SymObject('MegaGroup', dict(Group='GROUPCLS',
+                                          real=parent_real), 'self')
+        me3.module = ma.name
+        ex = Executor(repo, ma, qualname='MegaGroup._make_data', merge=False,
+                      externals={'MegaGroup': mk})
+        try:
+            outs = ex.exec_function(fmd, dict(self=me3, group=pg))
+            ok = len(outs) == 1 and isinstance(outs[0].value, list) and \
+                [b[0] for b in built] == subs and \
+                len(outs[0].value) == 3 and all(
+                    v_ is b[1] for v_, b in zip(outs[0].value, built))
+            why = 'returned %r' % (outs[0].value if outs else None,)
+            if ok:
+                for g_, o_ in built:
+                    if o_.attrs['real'] != g_.attrs['real'] or \
+                            o_.attrs['start_idx'] != ('own', g_.name) or \
+                            o_.attrs['group_cls'] != 'GROUPCLS':
+                        ok = False
+                        why = 'sub-group %s became %r' % (g_.name, o_.attrs)
+        except VCError as e:
+            ok, why = False, str(e)
+        obs.append(Obligation('carry.subgroups_keep_their_own_options.'
+                              'parent_real_%s' % parent_real, [],
+                              z3.BoolVal(bool(ok)), W, extra=dict(why=why)))
     # the convergence test of an iterated MegaGroup asks EVERY equation of
     # the group (all destinations, all sub-groups), each once
     fn = ma.methods('MegaGroup')['get_converged_condition']
